@@ -322,6 +322,34 @@ def run(ctx):
     for c in cases[2:5]:
         ctx.sample({"tuple": tuple_json(c[1]), "nodes": mc.jsonable(c[3]["nodes"])})
 
+    # several ports in ONE MIRP object (what every real build does): each port's nodes must be
+    # what the same port gives on its own -- ports sharing initial inventory and rate but not the
+    # capacity, or the kind, expose any state kept between add_nodes calls
+    n_multi = 40 if ctx.quick else 600
+    dist["multi_port_builds"] = 0
+    for i in range(n_multi):
+        (size, H, _p, init, rate, cap), kind = gen_tuple(rng, i)
+        if kind != "valid":
+            continue
+        ports = [("S1" if rate > 0 else "D1", init, rate, cap),
+                 ("S2" if rate > 0 else "D2", init, rate, cap + size * F(rng.randint(1, 4), 2)),
+                 ("D3" if rate > 0 else "S3", init, -rate, cap)]
+        rng.shuffle(ports)
+        m = mc.make_mirp(size, H)
+        for (pn, pi, pr, pc) in ports:
+            mc.apply_op(m, ("nodes", pn, pi, pr, pc))
+        shared = mc.snapshot(m)["nodes"]
+        dist["multi_port_builds"] += 1
+        for (pn, pi, pr, pc) in ports:
+            alone = run_add_nodes(size, H, pn, pi, pr, pc)[2]["nodes"][1:]
+            together = [x for x in shared if x[0].startswith(pn + "-")]
+            if alone != together:
+                failures.append((len(alone) + 100, (size, H, pn, pi, pr, pc),
+                                 f"port {pn} added to a MIRP that also holds {[q[0] for q in ports if q[0] != pn]} "
+                                 f"(ports {mc.jsonable(ports)}) gets nodes {mc.jsonable(together)}, "
+                                 f"on its own it gets {mc.jsonable(alone)}: the visit windows depend on other ports"))
+                break
+
     if failures:
         failures.sort(key=lambda f: (f[0], len(repr(f[1]))))
         nn, t, msg = failures[0]
